@@ -813,7 +813,10 @@ def monitor_step(ctx: fw.Ctx, case: dict, obs: dict, stub: bool) -> None:
     for k in ([] if stub else [x for x in obs['selected'] if any(c[0] == x for c in calls)]):
         a = obs['after'].get(k)
         if a is not None and a.get('success'):
+            live = {f"{d['id']}/{x['id']}" for d in case['handlers'] if d['id'] == k for x in d.get('subs', []) if x['match']}
             for s in a.get('subrefs') or []:
+                if s not in live:
+                    continue        # a sub-handler that is not selected for this cause does not hold the parent
                 sa = obs['after'].get(s)
                 if sa is not None and not rec_finished(sa):
                     ctx.fail('a parent handler is recorded as succeeded while a sub-handler it references is unfinished', data,
